@@ -281,3 +281,7 @@ var Text = pbt.Register(pbt.Prop[TextCase]{
 })
 
 func TestScalarText(t *testing.T) { pbt.Run(t, Text) }
+
+var Sweep = pbt.Register(reqcheck.SweepProp("TestCapacitySweep"))
+
+func TestCapacitySweep(t *testing.T) { pbt.Run(t, Sweep) }
